@@ -200,6 +200,14 @@ func dataFetch(url string) (body []byte, err error) {
 }
 
 func dataParse(rawMsg []byte, pathStr string) (msg []byte, err error) {
+	// xmlquery.Find panics on a selector that does not compile or does not evaluate to a
+	// node set; the selector comes from the request event
+	defer func() {
+		if r := recover(); r != nil {
+			msg = nil
+			err = fmt.Errorf("dataParse: invalid selector %q: %v", pathStr, r)
+		}
+	}()
 	if pathStr == "" {
 		msg = rawMsg
 	} else if strings.HasPrefix(pathStr, "$") {
